@@ -3,6 +3,7 @@
 package main
 
 import (
+	"encoding/json"
 	"fmt"
 	"os"
 	"path/filepath"
@@ -191,7 +192,6 @@ func runLockset(run *lib.Run, st *lib.Stats, sh *lib.Shards, next func() int) {
 	st.Extra["deep_copy_returns"] = tr.Deep
 	deepReturns = tr.Deep
 
-	var pending []pendingFail
 	var allowedNow []string
 	for gi, g := range tr.Groups {
 		var parts, checked []*Part
@@ -276,9 +276,6 @@ func runLockset(run *lib.Run, st *lib.Stats, sh *lib.Shards, next func() int) {
 		}
 		st.Sample(map[string]interface{}{"op": "lockset", "group": g, "parts": len(parts), "violating_pairs": len(vsAll), "culprit_parts": len(names)})
 	}
-	if len(pending) > 0 {
-		flushFailures(st, pending)
-	}
 	st.Extra["allow_listed_parts"] = allowedNow
 	gen := "/verif/coq/gen/C40_summaries.v"
 	if err := tr.writeGen(gen, allowedNow); err != nil {
@@ -310,22 +307,20 @@ func flushFailures(st *lib.Stats, fs []pendingFail) {
 	known := map[string]bool{}
 	if b, err := os.ReadFile("/verif/known_findings.jsonl"); err == nil {
 		for _, line := range strings.Split(string(b), "\n") {
-			if i := strings.Index(line, "\"signature\":\""); i >= 0 && strings.Contains(line, "\"C40\"") {
-				rest := line[i+13:]
-				if j := strings.Index(rest, "\""); j >= 0 {
-					known[rest[:j]] = true
-				}
+			var e struct{ Property, Status, Signature string }
+			if json.Unmarshal([]byte(line), &e) == nil && e.Property == "C40" {
+				known[e.Signature] = true
 			}
 		}
 	}
-	var all []map[string]string
+	seen := map[string]bool{}
 	for pass := 0; pass < 2; pass++ {
 		for _, f := range fs {
-			if known[f.sig] == (pass == 1) {
+			if known[f.sig] == (pass == 1) && !seen[f.sig] {
+				seen[f.sig] = true // one report per signature: the list is capped
 				st.Fail(f.sig, f.what, f.input)
-				all = append(all, map[string]string{"signature": f.sig, "what": f.what})
 			}
 		}
 	}
-	st.Extra["lockset_findings"] = len(fs)
+	st.Extra["distinct_failure_signatures"] = len(seen)
 }
